@@ -3,15 +3,18 @@ Props/C14 — YAML loading reproduces the value of every well-formed document.
 Property theorems only; lemmas live in Proof/YamlRoundTrip.lean.
 
 `render_load` (DESIGN §5): `∀ s, admissible s → loadRef (render s) = ok s.trees`, delivered in layers.
-Proved here in full: the byte layer, layer 1 (flow collections + double-quoted scalars), and the
-line-break layer (5) as a theorem about *every* stream, instantiated for layer 1.  Layers 2–4, 6, 7
-(block collections, block scalars, comments, anchors/aliases, multi-document) are `…_partial`:
+Proved here in full: the byte layer, layer 1 (flow collections + double-quoted scalars), layer 2
+(block collections, nesting, compact forms, plain / single / double scalars and keys, every null /
+bool / int spelling) and the line-break layer (5) as a theorem about *every* stream, instantiated
+for layers 1 and 2.  Layers 3, 4, 6, 7 (block scalars, comments, anchors/aliases, multi-document)
+are `…_partial`:
 each is proved on an explicit finite family of streams exhibiting the layer's constructs (kernel
 evaluation of `loadRef ∘ render`), the universally quantified statement is the `Prop`-valued
 `render_load_full_statement`; for those layers the quantifier is covered by the correspondence check,
 which re-evaluates `loadRef (render s) = ok s.trees` on every generated stream.
 -/
 import SuccinctlyVerif.Proof.YamlRoundTrip
+import SuccinctlyVerif.Proof.YamlBlock
 import SuccinctlyVerif.Proof.YamlFamilies
 namespace SV.Props.C14
 open SV SV.YamlRef
@@ -75,21 +78,38 @@ one of them: the quantification over all admissible streams of the layer (`rende
 restricted to the layer); that quantifier is covered only by the correspondence check, where the
 driver evaluates `loadRef (render s) = ok s.trees` for every generated stream. -/
 
-/-- Layer 2, partial — proved for ALL inputs of this shape: a bare document whose root is a block
-sequence (`- item` lines at column 0, any number ≥ 1 of entries, any number of spaces after `-`)
-whose items are arbitrary layer-1 nodes (flow collections of any depth, double-quoted strings,
-null/bool spellings, decimal ints).  MISSING for the full layer: block mappings, nested block
-collections at deeper indentation, compact forms (`- - x`, `- k: v`), plain and single-quoted
-scalars and keys, non-decimal int spellings. -/
-theorem render_load_partial_block_sequence (m : Meta) (x : PNode) (r : PItems) (st : Nat)
-    (h : (PItems.cons m x r).flat1 = true) :
-    loadRef (render (seqStream (.cons m x r) st)) = .ok [.seq (PItems.cons m x r).trees] := by
-  rw [render_load_bytes]; exact loadChars_blockSeq m x r st h
+/-- Layer 2 (block collections with plain / quoted scalars) — for ALL presentations of the layer:
+a bare document whose root satisfies `bl2`, i.e. is built from
+* block mappings and block sequences, nested to any depth, each nested collection indented by any
+  step ≥ 1 (a sequence under a mapping key also by 0), or written compactly after `- ` (`- - x`,
+  `- k: v`), with any number of spaces after `-` / `:`;
+* keys in plain, single-quoted or double-quoted style;
+* scalars: plain (any `plainSafe` string that the core schema resolves to a string), single-quoted,
+  double-quoted (both escape policies), `null` in all five spellings including the empty one, booleans in
+  six spellings, integers in all five spellings (decimal, `+`, `0x`, `0o`, zero-padded);
+* flow collections (of such scalars, any depth) as leaves.
+Not in this layer: block scalars (3), comment / blank lines and trailing comments (4), anchors and
+aliases (6), `---` / `...` and several documents (7). -/
+theorem render_load_block (x : PNode) (g : Nat) (h : x.bl2 .root = true) :
+    loadRef (render (bareStream x g)) = .ok [x.tree] := by
+  rw [render_load_bytes]; exact loadChars_block2 x g h
 
-example : (PItems.cons { gap := 1 } exL1 (.cons {} (.int 3 0) .nil)).flat1 = true := by decide
+/-- Layers 2 + 5: the same under LF, CRLF and CR line breaks. -/
+theorem render_load_block_breaks (x : PNode) (g : Nat) (b : Break) (h : x.bl2 .root = true) :
+    loadRef (render { bareStream x g with br := b }) = .ok [x.tree] := by
+  rw [render_load_bytes]; exact loadChars_block2_breaks x g b h
 
-/-- Layer 2 (block collections with plain / quoted scalars) — finite family only. -/
-theorem render_load_partial_block : familyBlock.all loadsBack = true := by decide +kernel
+/-- Non-vacuity: the layer-2 family members (nested, compact, step 0, all scalar kinds) satisfy
+`bl2` and are admissible. -/
+def exL2 : PNode :=
+  .map false 0 false (.cons {} "name".toList .plain (.str "a b:c#x".toList .plain)
+    (.cons {} "it's".toList .single (.seq false 0 false (.cons {} (.int 7 2) (.cons {} (.str "- x".toList .single) (.cons {} (.null 4) .nil))))
+    (.cons { gap := 1 } "k\n".toList (.double true false)
+      (.seq false 3 false (.cons {} (.map false 0 true (.cons {} "in".toList .plain (.bool false 1) (.cons {} "e".toList .plain (.seq true 0 false (.cons {} exL1 .nil)) .nil)))
+        (.cons { gap := 2 } (.seq false 0 true (.cons {} (.int (-5) 4) (.cons {} (.str "?deep".toList .plain) .nil))) .nil))) .nil)))
+
+example : exL2.bl2 .root = true := by decide +kernel
+example : admissible (bareStream exL2 0) = true := by decide +kernel
 
 /-- Layer 3 (literal and folded block scalars, chomping, indentation indicator) — finite family only. -/
 theorem render_load_partial_block_scalars : familyBlockScalar.all loadsBack = true := by decide +kernel
